@@ -418,3 +418,15 @@ package flushable
 //@   ensures  [wf] gWrOpN >= old(gWrOpN) && w.Flushable.underlying != nil && (w.Flushable.flushableReader.modified != nil ==> ovOK(w.Flushable.flushableReader.modified))
 //@   ensures  [openfailed] old(lazyp(w)) && gProdN == old(gProdN) + 1 && gProdR1 != nil ==> result == gProdR1 && gWrOpN == old(gWrOpN) && gBatchWriteN == old(gBatchWriteN) && w.Flushable.underlying == old(w.Flushable.underlying) && w.producer == old(w.producer) && tN[w.Flushable.flushableReader.modified] == old(tN[w.Flushable.flushableReader.modified])
 //@   ensures  [flushed] result == nil && w.Flushable.flushableReader.modified != nil ==> tN[w.Flushable.flushableReader.modified] == 0 && gWrOpN == old(gWrOpN) + old(tN[w.Flushable.flushableReader.modified]) && gBatchWriteN >= old(gBatchWriteN) + 1 && gBatcherNewBatchRecv == w.Flushable.underlying && w.Flushable.flushableReader.underlying == w.Flushable.underlying
+//@
+//@ // GetUnderlying (C28, lock discipline): the pool's table is reached with the pool's mutex held, and the store's
+//@ // underlying database is opened through a function that takes the STORE's lock (the helper initUnderlyingDb requires
+//@ // it). getDB (creates the lazily opened store of a name on first use; called with the pool's mutex held) is assumed.
+//@ trusted func (*SyncedPool).getDB
+//@   requires p != nil && wlocked(p.Mutex)
+//@   modifies p.wrappers[*]
+//@   ensures  result != nil && result.LazyFlushable != nil && result.LazyFlushable.Flushable != nil
+//@ func (*SyncedPool).GetUnderlying
+//@   requires p != nil && p.wrappers != nil
+//@   modifies p.wrappers[*], all(LazyFlushable).producer, all(Flushable).underlying, all(flushableReader).underlying, gProdN, gProdR0, gProdR1, gInitN, gInitRecv, gInitR0, gInitR1
+//@   ensures  result1 == nil ==> result0 != nil
